@@ -6,6 +6,7 @@ CONSTANTS
   BatchSz = 2
   InCap = 2
   AsyncHWM = TRUE
+  SigCap = 5
   MaxFlips = 99
   MaxLeaders = 3
   MaxRestarts = 99
@@ -19,6 +20,7 @@ CONSTANTS
   HWMAfterSendOK = TRUE
   PruneToHWMOnly = TRUE
   RewindCursor = TRUE
+  ParkedKeptUntilSent = TRUE
   RestartHWMBelowLowest = TRUE
   DropReapplied = TRUE
 CONSTRAINT HW
